@@ -1,10 +1,11 @@
 /*UNIT
-{"props": ["C09","C10","C06","C03"], "kind": "K2", "tier": "thorough", "timeout": 600,
- "extra_src": ["stubs/xxh_stub.c", "stubs/mem_sampled.c"],
- "remove_bodies": ["ZSTD_decompressBlock_internal"],
+{"props": ["C09","C10","C06","C03"], "kind": "K2", "tier": "quick", "timeout": 600,
+ "split": {"define": "ONLY_STAGE", "values": {"hdrsize": 0, "blockhdr": 2, "block": 3, "lastblock": 4, "checksum": 5, "skip": 7}},
+ "defines": ["ZSTD_DECODER_INTERNAL_BUFFER=64"],
+ "extra_src": ["stubs/xxh_stub.c", "stubs/mem_ranges.c"],
  "functions": ["ZSTD_decompressContinue","ZSTD_nextSrcSizeToDecompressWithInputSize","ZSTD_decodeFrameHeader","ZSTD_copyRawBlock","ZSTD_setRleBlock","ZSTD_checkContinuity","ZSTD_getcBlockSize"],
  "floor": 200,
- "assumes": ["ZSTD_decompressBlock_internal has its body removed (assumed contract: arbitrary return value, no effect on the frame-level fields stage/expected/fParams/decodedSize/checksum state); its own 'error or n <= dstCapacity' is the subject of the block-decoder units, so the capacity claim below is made for raw and RLE blocks",
+ "assumes": ["ZSTD_decompressBlock_internal replaced by a stub (assumed contract: asserts its input/output ranges, returns an error or n <= dstCapacity, no effect on the frame-level fields stage/expected/fParams/decodedSize/checksum state); its own 'error or n <= dstCapacity' is the subject of the block-decoder units, so the capacity claim below is made for raw and RLE blocks",
              "XXH64 uninterpreted; raw-block copy abstracted (mem_sampled)",
              "multi-DDict selection off (ddictSet == NULL): that path is unit c03_ddict_hashset",
              "frame parameters as ZSTD_getFrameHeader_advanced leaves them (blockSizeMax <= 128 KB)"],
@@ -24,17 +25,32 @@
 #include "lib/common/fse_decompress.c"
 #include "lib/decompress/zstd_ddict.c"
 #include "lib/decompress/huf_decompress.c"
+/* the real block decoder keeps its body under another name; the frame-level code below calls the stub */
+#define ZSTD_decompressBlock_internal ZSTD_decompressBlock_internal_real
 #include "lib/decompress/zstd_decompress_block.c"
+#undef ZSTD_decompressBlock_internal
+size_t ZSTD_decompressBlock_internal(ZSTD_DCtx* dctx, void* dst, size_t dstCapacity, const void* src, size_t srcSize, const streaming_operation streaming)
+{
+    (void)dctx; (void)streaming;
+    __CPROVER_assert(dstCapacity == 0 || __CPROVER_w_ok(dst, dstCapacity), "C03 continue: the block decoder is given a writable output range");
+    __CPROVER_assert(srcSize == 0 || __CPROVER_r_ok(src, srcSize), "C03 continue: the block decoder is given a readable input range");
+    if (nondet_vint()) return ERROR(corruption_detected);
+    {   size_t const r = nondet_vsz(); __CPROVER_assume(r <= dstCapacity); return r; }
+}
 #include "lib/decompress/zstd_decompress.c"
 
 void harness(void)
 {
-    static ZSTD_DCtx dobj;
-    ZSTD_DCtx* const d = &dobj;
+    /* untyped byte object: the header staging buffer inside the context is written at a symbolic offset */
+    IN(vsz, dsz);
+    ZSTD_DCtx* d;
     IN(vint, stage); IN(vsz, expected); IN(vsz, n); IN(vsz, cap); IN(vint, bType); IN(vsz, rleSize); IN(vu32, blockSizeMax);
     IN(vu64, fcs); IN(vu32, checksumFlag); IN(vint, validate); IN(vu64, decoded); IN(vint, format); IN(vsz, headerSize); IN(vint, forceIgnore);
     BYTE* src; BYTE* dst; size_t r;
+    ASSUME(dsz == sizeof(ZSTD_DCtx));
+    d = (ZSTD_DCtx*)malloc(dsz); ASSUME(d != NULL);
     ASSUME(stage >= ZSTDds_getFrameHeaderSize && stage <= ZSTDds_skipFrame);
+    ASSUME(stage == ONLY_STAGE);                                      /* one proof run per decoder stage */
     ASSUME(n <= ((size_t)1 << 33) && cap <= ((size_t)1 << 33));
     ASSUME(blockSizeMax <= ZSTD_BLOCKSIZE_MAX && checksumFlag <= 1 && (validate == 0 || validate == 1));
     ASSUME(format == ZSTD_f_zstd1 || format == ZSTD_f_zstd1_magicless);
@@ -45,9 +61,11 @@ void harness(void)
     d->validateChecksum = validate; d->decodedSize = decoded; d->format = (ZSTD_format_e)format; d->headerSize = headerSize;
     d->forceIgnoreChecksum = forceIgnore ? ZSTD_d_ignoreChecksum : ZSTD_d_validateChecksum;
     d->ddictSet = NULL; d->isFrameDecompression = 1;
-    d->previousDstEnd = NULL; d->prefixStart = NULL; d->virtualStart = NULL; d->dictEnd = NULL;
+    /* output continues where the previous call stopped (the other case is unit c02_check_continuity) */
+    d->previousDstEnd = dst; d->prefixStart = dst; d->virtualStart = dst; d->dictEnd = dst;
     /* stage invariants established by the previous call (each is a postcondition proved below for the successor) */
-    if (stage == ZSTDds_getFrameHeaderSize) ASSUME(expected == (format == ZSTD_f_zstd1 ? 5u : 1u) || expected == 0);
+    /* (expected == 0 in this stage is the terminal "frame complete" state: a further call there is outside the API contract, the code asserts srcSize >= 4) */
+    if (stage == ZSTDds_getFrameHeaderSize) ASSUME(expected == (format == ZSTD_f_zstd1 ? 5u : 1u));
     if (stage == ZSTDds_decodeFrameHeader) ASSUME(headerSize >= expected && headerSize <= ZSTD_FRAMEHEADERSIZE_MAX && expected >= 1 && headerSize - expected == (format == ZSTD_f_zstd1 ? 5u : 1u));
     if (stage == ZSTDds_decodeBlockHeader) ASSUME(expected == ZSTD_blockHeaderSize);
     if (stage == ZSTDds_decompressBlock || stage == ZSTDds_decompressLastBlock) ASSUME(expected >= 1 && expected <= blockSizeMax && (bType != bt_rle || expected == 1));
@@ -67,17 +85,21 @@ void harness(void)
             }
         }
         if (ZSTD_isError(r)) { REACH("continue: error"); return; }
-        if (!((s0 == ZSTDds_decompressBlock || s0 == ZSTDds_decompressLastBlock) && bType == bt_compressed))
-            CLAIM(r <= cap, "C06 continue: bytes produced never exceed the destination capacity");
+        CLAIM(r <= cap, "C06 continue: bytes produced never exceed the destination capacity");
         CLAIM(d->expected <= (d->stage == ZSTDds_skipFrame ? 0xFFFFFFFFu : (ZSTD_BLOCKSIZE_MAX > ZSTD_FRAMEHEADERSIZE_MAX ? ZSTD_BLOCKSIZE_MAX : ZSTD_FRAMEHEADERSIZE_MAX)), "C10 continue: the size hint is bounded by the block size limit");
         if (s0 == ZSTDds_decodeBlockHeader) {
             REACH("continue: block header");
-            CLAIM(d->expected <= blockSizeMax, "C03/C05 continue: a block larger than the frame's block size limit is refused");
+            if (d->stage == ZSTDds_decompressBlock || d->stage == ZSTDds_decompressLastBlock)
+                CLAIM(d->expected <= blockSizeMax, "C03/C05 continue: a block larger than the frame's block size limit is refused");
             CLAIM((d->stage == ZSTDds_decompressBlock || d->stage == ZSTDds_decompressLastBlock) ? d->expected >= 1
                   : (d->stage == ZSTDds_decodeBlockHeader ? d->expected == ZSTD_blockHeaderSize
                   : (d->stage == ZSTDds_checkChecksum ? (d->expected == 4 && checksumFlag) : (d->stage == ZSTDds_getFrameHeaderSize && d->expected == 0 && !checksumFlag))),
                   "C10 continue: after a block header the decoder expects the block, the next header, the checksum or the end, as the frame grammar says");
             CLAIM(d->bType != bt_reserved, "C03 continue: reserved block type refused");
+            if (d->stage == ZSTDds_checkChecksum || d->stage == ZSTDds_getFrameHeaderSize) {
+                REACH("continue: empty last block ends the frame");
+                CLAIM(fcs == ZSTD_CONTENTSIZE_UNKNOWN || d->decodedSize == fcs, "C09 continue: a frame with a declared content size that ends with an EMPTY last block ends successfully only if exactly that many bytes were regenerated");
+            }
         }
         if (s0 == ZSTDds_decompressLastBlock && d->expected == 0 && d->stage != ZSTDds_decompressLastBlock) {
             REACH("continue: last block done");
@@ -85,7 +107,7 @@ void harness(void)
             CLAIM(checksumFlag ? (d->stage == ZSTDds_checkChecksum && d->expected == 4) : (d->stage == ZSTDds_getFrameHeaderSize && d->expected == 0),
                   "C10 continue: after the last block comes the checksum if the frame has one, otherwise the frame is complete");
         }
-        if (s0 == ZSTDds_decompressBlock && d->expected == 0 + 0 && d->stage == ZSTDds_decodeBlockHeader) { REACH("continue: block done"); CLAIM(d->expected == ZSTD_blockHeaderSize, "C10 continue: after a block the next block header"); }
+        if (s0 == ZSTDds_decompressBlock && d->stage == ZSTDds_decodeBlockHeader) { REACH("continue: block done"); CLAIM(d->expected == ZSTD_blockHeaderSize, "C10 continue: after a block the next block header"); }
         if ((s0 == ZSTDds_decompressBlock || s0 == ZSTDds_decompressLastBlock)) {
             CLAIM(d->decodedSize == decoded + r, "C09 continue: decoded size accounts for every regenerated byte");
             if (bType == bt_raw && d->stage == s0) { REACH("continue: raw block streamed"); CLAIM(d->expected == e0 - n && d->expected >= 1, "C10 continue: a partially fed raw block asks for exactly the rest"); }
@@ -95,11 +117,13 @@ void harness(void)
             CLAIM(!validate || MEM_readLE32(src) == (U32)zstd_verif_ghost.xxh_last_digest, "C09 continue: the frame checksum is accepted only if it equals the computed one (unless verification is disabled)");
             CLAIM(d->stage == ZSTDds_getFrameHeaderSize && d->expected == 0, "C10 continue: after the checksum the frame is complete");
         }
+#if ONLY_STAGE == 1     /* proof run of unit c09_decompress_continue_hdr */
         if (s0 == ZSTDds_decodeFrameHeader) {
             REACH("continue: frame header decoded");
             CLAIM(d->stage == ZSTDds_decodeBlockHeader && d->expected == ZSTD_blockHeaderSize, "C10 continue: after the frame header the first block header");
             CLAIM(d->validateChecksum == (d->fParams.checksumFlag && !forceIgnore), "C09 continue: checksum verification is on exactly when the frame has one and it is not disabled");
             CLAIM(d->fParams.blockSizeMax <= ZSTD_BLOCKSIZE_MAX, "C03 continue: block size limit bounded");
         }
+#endif
     }
 }
